@@ -89,6 +89,8 @@ type ProxyOpts struct {
 	// configuration is produced by proxy.LoadConfig(), as the real binary does, instead of by assigning
 	// to the Configuration struct. (Process environment is global: serialised by envMu.)
 	ViaEnv bool
+	// NoGrace: the grace period is configured as 0s (Grace == 0 otherwise means "harness default")
+	NoGrace bool
 }
 
 // ProxyStack is a running sso-proxy built exactly the way cmd/sso-proxy builds it.
@@ -208,7 +210,7 @@ func NewProxyStack(o ProxyOpts) (*ProxyStack, error) {
 	if o.Lifetime == 0 {
 		o.Lifetime = LifetimeTTL
 	}
-	if o.Grace == 0 {
+	if o.Grace == 0 && !o.NoGrace {
 		o.Grace = GraceTTL
 	}
 	if o.DefaultSlug == "" {
